@@ -337,6 +337,7 @@ DEFAULT_OPTS = dict(
     virtual_dtor=False,   # M has a virtual destructor
     argm=None,            # tuple of argument matcher variants, one per parameter; None = wildcard
     long_macros=False,    # -DTROMPELOEIL_LONG_MACROS and TROMPELOEIL_ prefixed spelling
+    dependent=False,      # the expectation is written in a function template whose parameter is the mock object (dependent type)
     vform=False,          # the variadic spelling FAMILY_V(obj, call, .CLAUSE(..) .CLAUSE(..)) (docs/Backward.md; valid at every level)
 )
 
